@@ -761,7 +761,8 @@ def _cookies(ctx):
 # ------------------------------------------------------------------ 3. URI-bearing helpers: pure ASCII, decodes back
 
 _U_ALPHA = ['a', 'Z', '0', '/', '/', '?', '=', '&', '#', ' ', '%', '%41', '%zz', '+', ':', '@', ',', ';', '~', '-', '.', '_', '"', "'", '<', '>', '\\', '^', '`', '{', '|', '}',
-            'é', 'ü', 'ß', 'Ω', 'я', '日', '本', '語', '😀', '\u200b', '\u202e', 'ÿ', '\x7f', '(', ')', '[', ']', '!', '*', '$']
+            'é', 'ü', 'ß', 'Ω', 'я', '日', '本', '語', '😀', '\u200b', '\u202e', 'ÿ', '\x7f', '(', ')', '[', ']', '!', '*', '$',
+            '\t', '\n', '\r', '\x00', '\x01', '\x0f', '\x10', '\x1f']   # control characters: the escape is two hex digits also below 0x10
 _F_ALPHA = ['a', 'B', '1', '.', '-', '_', ' ', '(', ')', ',', ';', '%', "'", '+', '=', '&', '/', 'é', 'Å', 'ñ', '日', '本', '😀', '𝟏', 'ﬁ', '"', '\\']
 
 
